@@ -305,6 +305,7 @@ func (s *scope) Close() error {
 
 		// The child may be in the middle of being closed by someone else (its
 		// context watcher): its disposal must be complete before ours starts
+		verifGate("C_waitchild", s, child)
 		<-child.done
 	}
 
@@ -501,6 +502,7 @@ func (s *scope) resolveScoped(key instanceKey, descriptor *Descriptor) (any, err
 
 		if inFlight, busy := s.creating[flight]; busy {
 			s.instancesMu.Unlock()
+			verifGate("R_wait", s)
 			<-inFlight
 			continue
 		}
